@@ -457,9 +457,10 @@ class CodeFence(BlockToken):
         for line in lines:
             stripped_line = line.lstrip(' ')
             diff = len(line) - len(stripped_line)
-            if (stripped_line.startswith(cls._open_info[1])
-                    and len(stripped_line.split(maxsplit=1)) == 1
-                    and diff < 4):
+            closing = stripped_line.rstrip()
+            if (diff < 4
+                    and len(closing) >= len(cls._open_info[1])
+                    and closing == cls._open_info[1][0] * len(closing)):
                 break
             if diff > cls._open_info[0]:
                 stripped_line = ' ' * (diff - cls._open_info[0]) + stripped_line
